@@ -73,6 +73,8 @@ def run(repo, rep):
     _memo_rule(repo, rep, 'C11', 'C11.Z1')
     from ..pitfalls import log_rule as _log_rule
     _log_rule(repo, rep, 'C11', 'C11.Z2')
+    from ..api_pitfalls import truth_rule as _truth_rule
+    _truth_rule(repo, rep, 'C11', 'C11.Z4')
     hier = exc_hierarchy(repo)
     ae = repo.cls('applicationentity', 'AEBase')
     rq = repo.cls('asceprovider', 'AssociationRequester')
